@@ -118,6 +118,16 @@ def run(ctx):
         if g[0] != 'ok' or [int(v) for v in g[1]] != nnum:
             ctx.violation('property', 'calculate_neighbor_numbers(%s) = %s, expected %s' % (ss, str(g)[:200], nnum),
                           dict(func='calculate_neighbor_numbers', seqs=ss, hamming=ham, alphabet=al), site='distance.calculate_neighbor_numbers')
+        # explicit reference argument: empty (set and list), a sub-collection, a different collection
+        for ref in (set(), set(ss[:len(ss) // 2]), set(ss) | {x}):      # reference SETS (the stated domain; a list raises TypeError in set & list)
+            o = ctx.oracle.run([('api_neighbor_numbers', [ham, al, ss, sorted(set(ref))])])[0]
+            g = call_impl(lambda: ds.calculate_neighbor_numbers(ss, reference=set(ref), neighborhood=nbf))
+            ctx.case(nontrivial_key=('nnum-ref', tuple(ss), tuple(sorted(ref))) if any(o) else None)
+            ctx.count('neighbor_numbers_reference_' + ('empty' if not ref else 'given'))
+            if g[0] != 'ok' or [int(v) for v in g[1]] != o:
+                ctx.violation('property', 'calculate_neighbor_numbers(%s, reference=%r) = %s, expected %s' % (ss, ref, str(g)[:200], o),
+                              dict(func='calculate_neighbor_numbers', seqs=ss, reference=sorted(ref), hamming=ham, alphabet=al),
+                              site='distance.calculate_neighbor_numbers[reference]')
         g = call_impl(lambda: ds.isdist1(x, set(ss), neighborhood=nbf))
         if g[0] != 'ok' or bool(g[1]) != isd:
             ctx.violation('property', 'isdist1(%r, %s) = %s, expected %s' % (x, ss, g, isd),
@@ -128,18 +138,37 @@ def run(ctx):
         Lx = rng.randint(1, 5)
         x = ''.join(rng.choice('ACD') for _ in range(Lx))
         ref = [''.join(rng.choice('ACDEF') for _ in range(rng.choice([Lx, Lx, Lx + 1]))) for _ in range(rng.randint(0, 5))]
+        if rng.random() < 0.4 and Lx >= 2:
+            # nearest reference at distance exactly 2 or 3 with the mismatches in the LAST positions (the loop bounds' corner)
+            d = rng.choice([2, 3]) if Lx >= 3 else 2
+            ref = [x[:Lx - d] + ''.join(rng.choice([c for c in 'ACDEF' if c != x[i]]) for i in range(Lx - d, Lx))] + \
+                  [r for r in ref if len(r) != Lx][:2]
         md = rng.randint(1, 4)
         ncase.append((x, ref, md))
         nreq.append(('api_nndist_ham', [md, x, ref]))
     outs = ctx.oracle.run_parallel(nreq)
-    for (x, ref, md), o in zip(ncase, outs):
+    # the algorithm-mirroring model of the loops (proved equal to the specification-level minimum: C12_nndist_is_spec_fold)
+    outs_loops = ctx.oracle.run_parallel([('api_c12_nndist', [md, x, ref]) for x, ref, md in ncase])
+    aux = ctx.oracle.run_parallel([('api_c12_isdist2', [x, ref]) for x, ref, md in ncase] + [('api_c12_isdist3', [x, ref]) for x, ref, md in ncase])
+    for n, ((x, ref, md), o, ol) in enumerate(zip(ncase, outs, outs_loops)):
         g = call_impl(lambda: ds.nndist_hamming(x, set(ref), maxdist=md))
         ctx.case(nontrivial_key=('nndist', x, tuple(ref), md) if o < md else None)
+        ctx.count('nndist=%d' % o)
+        if ol != o:
+            ctx.violation('correspondence', 'loop model %s and specification-level minimum %s differ on %r %s maxdist=%d' % (ol, o, x, ref, md),
+                          dict(x=x, ref=ref, maxdist=md), site='model.nndist')
+        for nm, exp in (('_isdist2_hamming', aux[n]), ('_isdist3_hamming', aux[len(ncase) + n])):
+            if hasattr(ds, nm):        # private helpers: auxiliary localisation only
+                h = call_impl(getattr(ds, nm), x, set(ref))
+                if h[0] != 'ok' or bool(h[1]) != exp:
+                    ctx.note('%s(%r, %s) = %s, loop model %s' % (nm, x, ref, h, exp))
+        if n < 20:
+            ctx.add_vm('api_c12_nndist', [md, x, ref], ol)
         if g[0] != 'ok' or int(g[1]) != o:
             ctx.violation('property', 'nndist_hamming(%r, %s, maxdist=%d) = %s, expected %d' % (x, ref, md, g, o),
                           dict(func='nndist_hamming', x=x, ref=ref, maxdist=md), site='distance.nndist_hamming')
     ctx.assumptions += ['find_neighbor_pairs_index / calculate_neighbor_numbers on duplicate-free input (docstring requirement)',
-                        'nndist_hamming is compared with the specification-level minimum (its enumeration loops are not modelled)']
+                        'nndist_hamming: the enumeration loops are modelled (subs2 / subs3) and proved equal to the capped minimum for references over the amino-acid letters']
 
 
 def replay(ctx, obj):
